@@ -628,6 +628,7 @@ pub fn run(tier: Tier, seed: u64) -> Report {
                     section: section.clone(),
                     case: json!({"profile": profile, "call": v["violation"]["case"]}),
                     message: format!("[{} profile] {}", profile, v["violation"]["message"].as_str().unwrap_or("")),
+                    preceding: Vec::new(),
                 })
             } else {
                 None
@@ -673,6 +674,7 @@ pub fn run(tier: Tier, seed: u64) -> Report {
                         section: section.clone(),
                         case: json!({"profile": profile, "call": case}),
                         message: format!("[{} profile] the call {} when run alone in a fresh process under a 6 GiB limit", profile, what),
+                        preceding: Vec::new(),
                     };
                     rep.absorb(&section, SectionResult { stats: st, violation: Some(v) });
                     return rep;
